@@ -514,6 +514,15 @@ def r13_explicit_profile(ctx):
     ctx.need('R13.explicit-profile', 3)
 
 
+def r14_converted_degrees(ctx):
+    """R14: the per-degree targets of a ROADM survive the conversion of its topology to YANG: convert_degree collects the entries of
+    EVERY per-degree table (power, PSD, PSW) - the list it fills over the tables is grown, never re-assigned - otherwise a degree
+    configured under an earlier table silently equalises to the node-level target (accumulator rule shared with C18-R2)"""
+    from .c18 import r2b_accumulators as _r
+    from .common import proxy
+    _r(proxy(ctx, 'R14'))
+
+
 from ..memo import rule_for as _memo_rule
 
 RULES_MEMO = ('Rm.memo', _memo_rule('C06', 'the equalisation computed for another spectrum or target would be applied'))
@@ -523,4 +532,4 @@ from ..presence import rule_for as _presence_rule
 
 RULES_PRESENCE = ('Rp.presence', _presence_rule('C06', 'a ROADM target of exactly 0 dBm would be ignored and another target applied'))
 
-RULES = [('R6.stateless', r6_stateless), ('R1.formula', r1_formula), ('R2.policy', r2_policy), ('R4.one-policy', r4_one_policy), ('R5.design', r5_design), RULES_MEMO, RULES_PRESENCE, ('R7.channel-order', r7_channel_order), ('Rk.field-key', rk_field_key), ('Rx.export-keys', rx_export_keys), ('Re.for-each', re_foreach), ('R8.mode-copy', r_mode_copy), ('Rn.arg-roles', rn_arg_roles), ('R9.path-lookup', r_path_lookup), ('R10.profile-order', r10_profile_order), ('R11.roadm-input', r_roadm_input), ('R12.design-order', r12_design_order), ('R13.explicit-profile', r13_explicit_profile)]
+RULES = [('R6.stateless', r6_stateless), ('R1.formula', r1_formula), ('R2.policy', r2_policy), ('R4.one-policy', r4_one_policy), ('R5.design', r5_design), RULES_MEMO, RULES_PRESENCE, ('R7.channel-order', r7_channel_order), ('Rk.field-key', rk_field_key), ('Rx.export-keys', rx_export_keys), ('Re.for-each', re_foreach), ('R8.mode-copy', r_mode_copy), ('Rn.arg-roles', rn_arg_roles), ('R9.path-lookup', r_path_lookup), ('R10.profile-order', r10_profile_order), ('R11.roadm-input', r_roadm_input), ('R12.design-order', r12_design_order), ('R13.explicit-profile', r13_explicit_profile), ('R14.converted-degrees', r14_converted_degrees)]
